@@ -68,6 +68,8 @@ def run(rep):
     for x in sorted(set(X)):
         frontier = {x}
         for _ in range(3):
+            # (the closures a function creates are part of it: a helper called from the body of a `try_for_each(|..| ..)` loop is a helper of x)
+            frontier |= {n_ for n_, b_ in mir.bodies.items() if b_.kind == 'Closure' and b_.parent in frontier}
             frontier = {cname(t) for f_ in frontier if f_ in mir.bodies for _, t in mir.bodies[f_].calls() if cname(t) in mir.bodies and mir.bodies[cname(t)].kind != 'Closure'} - {x}
             helper_parents |= frontier
         mir.bodies[x] = inlined(mir, x, depth=3)
@@ -95,7 +97,14 @@ def run(rep):
             if cname(t) == 'std::vec::Vec::<T, A>::push' and (t['self_ty'] or '').split('<')[0].endswith(REC_SHORT):
                 elem_tys.add(t['self_ty'])          # a push of the collected-binding record (by its type, wherever the list lives)
     for name, B in sorted(mir.bodies.items()):
-        if name in helper_parents and name not in X and all(cn in X or cn in helper_parents for cn, cb in mir.bodies.items() if cb.kind != 'Closure' and any(cname(t_) == name for _, t_ in cb.calls())):
+        def owner(cn_):
+            # a closure belongs to the function that creates it (its body is inlined there when it is the body of a for_each / try_for_each loop)
+            seen_ = 0
+            while cn_ in mir.bodies and mir.bodies[cn_].kind == 'Closure' and mir.bodies[cn_].parent and seen_ < 5:
+                cn_ = mir.bodies[cn_].parent
+                seen_ += 1
+            return cn_
+        if name in helper_parents and name not in X and all(owner(cn) in X or owner(cn) in helper_parents for cn, cb in mir.bodies.items() if any(cname(t_) == name for _, t_ in cb.calls())):
             continue        # a helper called only from the group-data function (and its helpers): judged inlined there
         for bb, t in B.calls():
             if cname(t) != 'std::vec::Vec::<T, A>::push' or t['self_ty'] not in elem_tys:
